@@ -1167,14 +1167,17 @@ main(int argc, char *argv[])
 		"values wrap at midnight; co-classes /N: nearest grid point with finer fields zero (sweep tables over the second line / the day line, "
 		"month grids aligned to the year, year grids to year 0); without -n an input on the target is unchanged, with -n the result is strictly "
 		"on the requested side; rounding the result again (no -n) must not move it. Readings: a day-of-month target beyond a month's end is judged "
-		"only when the exact and the clamped reading agree; week numbers, quarters, business days, year values, multiple RNDSPECs are outside the "
-		"statement; /Nmo only for N | 12; results beyond 1601..4095 skipped. non-trivial = the rounded value is in another month (dates), on "
+		"only when the exact and the clamped reading agree; several RNDSPECs in one call: the single-spec model applied left to right (--help), and the whole "
+		"list once more on the tool's own result; Nb (business day of the month, 1..20) on values held as business day of the month and /1b (grid = Mon-Fri) "
+		"are judged; not enumerated: Nq (the help does not say which month/day of the quarter is meant), Ny (refused by the tool: years do not recur), "
+		"Nw (not in the help's list of suffixes), the documented spelling `bd' (rejected by the parser, see notes); /Nmo only for N | 12; results beyond 1601..4095 skipped. non-trivial = the rounded value is in another month (dates), on "
 		"another day (date-times), or beyond midnight (times)");
 	ex_meta("bound", "%s: dates: all days %d-01-01..%d-12-31 x {7 weekday names, 12 month names, 12 month numbers, day-of-month 1..31, /1d, /{1,2,3,4,6,12}mo, "
 		"/{1,2,4,5,10,100}y} x {up,down} x {-,-n}; times: all 86,400 seconds x {0..23h, 0..59m, 0..59s, /{1,2,3,4,6,8,12,24}h, /{12 divisors of 60}m, "
 		"/{12 divisors}s} x {up,down} x {-,-n}; date-times: %d boundary days x 7 times x all of the above; the same instants given as Unix epoch seconds (-i %%s) x the /N time targets; main(): N = 0..70 x {h,m,s,mo,d} x {N, /N} x "
-		"{up,down} x {-,-n} x 3 inputs; binding: %d RNDSPECs x all days of the tier on stdin of the dround binary",
-		ex.thorough ? "thorough" : "quick", ylo, yhi, NBDAYS, NBIND);
+		"{up,down} x {-,-n} x 3 inputs; lists: all ordered pairs%s over %d RNDSPECs of mixed kinds x {-,-n} on %d days (the boundary days before 4094) x 7 times (date-times) and on the days alone "
+		"(date specs only); bizda: every Mon-Fri day of the tier x 1..20b x {up,down} x {-,-n}; binding: %d RNDSPECs x all days of the tier on stdin of the dround binary",
+		ex.thorough ? "thorough" : "quick", ylo, yhi, NBDAYS, ex.thorough ? " and triples" : "", NMDEF, NBDAYS - 3, NBIND);
 	ex_meta("binding", "dround binary of the same build reading all days of the tier from stdin for %d (option, RNDSPEC) pairs, byte-compared with the level-S observation", NBIND);
 
 	/* dates: one slice per year */
@@ -1229,6 +1232,11 @@ main(int argc, char *argv[])
 		for (int k = 0; k < 8 && !ex_expired(); k++, slice++) {
 			int rd = rc_rd(bdays[b][0], bdays[b][1], bdays[b][2]);
 			if (!ex_mine(slice)) {
+				continue;
+			}
+			if (bdays[b][0] >= 4094) {
+				/* every list with a weekday or /1b element would only repeat the known range
+				 * finding there (day counts above 910674, judged by the single-spec part) */
 				continue;
 			}
 			for (int len = 2; len <= (ex.thorough ? 3 : 2); len++) {
